@@ -107,16 +107,21 @@ class Flattener:
         if any(isinstance(a, ast.Starred) for a in call.args) or any(k.arg is None for k in call.keywords):
             return None
         if isinstance(fn, ast.Attribute):
-            if not (isinstance(fn.value, ast.Name) and fn.value.id in ("self", "cls")):
-                # Class.helper(...) static call is fine, anything else is not inlined
-                if not (isinstance(fn.value, ast.Name) and fn.value.id in self.repo.classes):
-                    return None
+            if not _simple(fn.value):
+                # self.helper(..), Class.helper(..), channel.helper(..), self.gateway.helper(..): the receiver must be
+                # re-evaluable (a name or attribute chain), anything else is not inlined
+                return None
         elif not isinstance(fn, ast.Name):
             return None
         try:
             targets = self.repo.resolve_call(call, ctx_fi)
         except Exception:
             return None
+        if not targets and isinstance(fn, ast.Attribute):
+            # receiver type unknown: a *new* helper method whose name is defined exactly once in the repo
+            cands = [f for f in self.repo.funcs.values() if f.name == fn.attr and f.cls is not None]
+            if len(cands) == 1 and cands[0].qualname not in KNOWN_FUNCS:
+                targets = cands
         if len(targets) != 1:
             return None
         t = targets[0]
